@@ -7,7 +7,7 @@ from ..ast import is_var, walk, record
 ID = "C10"
 RULE = ("Mode G over an adversarial id/bounds grammar, enumerated completely: top node with 1..2 (3 in a sub-family) children, each a leaf "
         "(id in {x,y,a,b,ab,A(=top),B,C}, bounds from a menu with equal-sum pairs (0,3)/(1,2), the hash(-1)==hash(-2) pair (-1,5)/(-2,5) and "
-        "plain differences) or a compound (id B/C/generated, sign/value in {(+,1),(+,2),(-,-1),(-,-2)}, 1..2 children, optionally nested), "
+        "plain differences) or a compound (id B/C/generated, sign/value in {(+,1),(+,2),(-,-1),(-,-2),(-,1),(+,-1)}, 1..2 children incl. a leaf with a box symmetric around 0, optionally nested), "
         "plus wrapper families that reuse the same object / an equal copy / a different definition of one id under two parents, self "
         "references and 2-/3-cycles through ids. oracle: soundness errors()==[] => reference validator (own traversal, compares ids and "
         "(lo,hi) tuples and (sign,value,children) directly, never hashes); completeness on models whose ids are pairwise distinct or whose "
@@ -17,15 +17,17 @@ ASSUMPTIONS = [
     "two compounds with one id and equal (sign,value,child ids) are one definition regardless of their Python class",
 ]
 BOUNDS = {
-    "quick": "all 1- and 2-child tops over 13 leaf specs + 660 compound specs + nested/cycle specs; wrapper family 48x48x2; triples over a reduced menu",
+    "quick": "all 1- and 2-child tops over 13 leaf specs + 660 compound specs + nested/cycle specs; wrapper family 78x78x2x3; triples over a reduced menu",
     "thorough": "quick + 3-child tops over a 60-item menu + larger wrapper family",
 }
 
 LM = [("x", (0, 1)), ("x", (0, 3)), ("x", (1, 2)), ("x", (-1, 5)), ("x", (-2, 5)), ("y", (0, 1)), ("B", (0, 1)), ("B", (0, 3)),
-      ("A", (0, 1)), ("a", (0, 1)), ("b", (0, 1)), ("ab", (0, 1)), ("C", (0, 1))]
+      ("A", (0, 1)), ("a", (0, 1)), ("b", (0, 1)), ("ab", (0, 1)), ("C", (0, 1)), ("t", (-3, 3)), ("t", (-2, 2))]
 SL = [("x", (0, 1)), ("x", (0, 3)), ("x", (1, 2)), ("y", (0, 1)), ("a", (0, 1)), ("b", (0, 1)), ("ab", (0, 1)), ("A", (0, 1)),
-      ("C", (0, 1)), ("B", (0, 1))]
-SV = [(1, 1), (1, 2), (-1, -1), (-1, -2)]
+      ("C", (0, 1)), ("B", (0, 1)), ("t", (-3, 3))]
+# sign/value pairs: plain ones, the hash(-1)==hash(-2) pair, and pairs that differ ONLY in sign (equal value) - with a child box that is
+# symmetric around 0 these have equal equation bounds, i.e. are equal under any comparison that ignores the sign
+SV = [(1, 1), (1, 2), (-1, -1), (-1, -2), (-1, 1), (1, -1)]
 
 
 def leaf_spec(i, bd):
@@ -69,7 +71,7 @@ def menu():
 
 
 def small_b_menu(n_sets=12):
-    childsets = ([(c,) for c in SL[:6]] + list(itertools.combinations(SL[:4], 2)))[:n_sets]
+    childsets = ([(c,) for c in SL[:6]] + [(SL[10],)] + list(itertools.combinations(SL[:4], 2)))[:n_sets + 1]
     return [comp_spec("B", s, v, [leaf_spec(*c) for c in cs]) for (s, v) in SV for cs in childsets]
 
 
